@@ -42,3 +42,7 @@ check("C11", "Hypothesis (rule set, filter set, prefix seed, pipeline) pairs; in
       "Rules and filters draw detection names from one adversarial pool and conditions from identifier/them/pattern templates; log sources cover all subset relations; rule lists by id/name/any/[]/non-matching. Targeted rules must decode to (rule) AND (filter) by truth table, untargeted rules must be unchanged, and each rule must convert as it does alone with the same filters (also under a renaming pipeline).",
       "Trusted: vf/ref conditions and rules; random prefix controlled through random.seed.",
       "DESIGN.md section 3, C11")
+check("C17", "Hypothesis (value with placeholders, pipeline of placeholder items, variable table); reference expansion + truth-table oracle / expected-failure oracle",
+      "Values with 0-3 placeholders in string, keyword and regular-expression position under contains/startswith/endswith/all are pushed through pipelines of value-list, wildcard and query-expression items with include/exclude lists and variable tables (numbers, wrong types, missing). The decoded query must equal the reference expansion by truth table, or conversion must fail with a SigmaError naming the unresolved placeholder; no query may contain %name%.",
+      "Trusted: vf/ref/modifiers.py for what a placeholder is; empty variables and regex-metacharacter insertion excluded.",
+      "DESIGN.md section 3, C17")
